@@ -54,6 +54,14 @@ Proof. exact (C11.gassner_haibach_damage_one c l). Qed.
 (* below the knee point the source documents 'inf'; that is what the model (and the code) returns *)
 Theorem gassner_haibach_below_knee_inf c l : k2 c = None -> max_amp l < SD c -> gassner_cycles lm_haibach c l = None.
 Proof. exact (C11.gassner_haibach_below_knee_inf c l). Qed.
+(* ... but a curve with a finite k_2 gets a finite number there, and it is not the Gassner life of the Haibach rule: the damage at the
+   predicted cycles is (max/SD)^(k_1 - k_2) (> 1 for k_2 = 2 k_1 - 1): the property's damage-one clause is FALSE of the faithful model
+   below the knee point (known finding `haibach-below-knee`) *)
+Theorem gassner_haibach_below_knee_damage c l k2v : curve_ok c -> coll_ok l -> 0 < max_occ l ->
+  0 < max_amp l < SD c -> k2 c = Some k2v ->
+  exists Ng, gassner_cycles lm_haibach c l = Some Ng /\
+             damage_sum (miner_haibach c) (apply_for Ng l) = npow (max_amp l / SD c) (k1 c - k2v).
+Proof. exact (C11.gassner_haibach_below_knee_damage c l k2v). Qed.
 
 (* Curves with scatter whose native failure probability is not 50 %: WoehlerCurve.cycles / Fatigue.damage read the curve transformed to
    50 % (c50), MinerHaibach.lifetime_multiple reads the knee point self.SD of the native curve (cn).  The damage after the code's Gassner
@@ -158,6 +166,7 @@ Print Assumptions damage_member_haibach.
 Print Assumptions damage_member_original.
 Print Assumptions gassner_haibach_damage_one.
 Print Assumptions gassner_haibach_below_knee_inf.
+Print Assumptions gassner_haibach_below_knee_damage.
 Print Assumptions gassner_haibach_split_value.
 Print Assumptions gassner_haibach_split_same_knee.
 Print Assumptions gassner_haibach_native_knee_refuted.
